@@ -316,7 +316,12 @@ fn judge(rep: &Report, kind: &str, d: &Dump, e: &Expect, replay: &serde_json::Va
             continue;
         }
         if let Some(c) = e.durable.cur.get(k) {
-            if order_key(full) < order_key(c) {
+            // older than the committed packet is legitimate only as the state of the batch in
+            // flight: the committed packet was evicted in that batch and an older one stored
+            let in_flight_state = e.latest.cur.get(k) == Some(full) && e.evicted.contains(k);
+            if order_key(full) < order_key(c) && in_flight_state {
+                rep.count("images.older_packet_after_in_flight_eviction(allowed)", 1);
+            } else if order_key(full) < order_key(c) {
                 bad(format!("C39:{kind}:older-than-committed-packet"), format!("holds ts {} but ts {} was committed before the crash point", ts_of(full), ts_of(c)));
             }
         }
